@@ -441,6 +441,23 @@ fn matrix_predicates<F: Flt>(d: &mut Draw) -> Outcome {
             let g: Vec<F> = (0..N * N).map(|_| F::of(d.f64_slog(1e-3, 1e3))).collect();
             let m = <$M<F> as Parts<F>>::build(&g);
             ensure!(m.is_invertible() == !ueq(m.determinant(), z), "is_invertible", "{}::is_invertible() on a generic matrix", name);
+            // every magnitude: entries whose products underflow, overflow to an infinity, or cancel to NaN - the predicates
+            // are *defined* as the ulps comparison of whatever determinant()/the elements are
+            let scale = match d.int(0, 3) {
+                0 => F::of(d.f64_log(1e-40, 1e-10)),
+                1 => F::of(d.f64_log(1e10, 1e38)),
+                2 => F::max_value() / F::of(d.f64_log(1.0, 1e3)),
+                _ => F::of(d.f64_log(1e-3, 1e3)),
+            };
+            let g: Vec<F> = (0..N * N).map(|i| if d.chance(1, 4) && i / N != i % N { z } else { F::of(d.f64_slog(0.5, 2.0)) * scale }).collect();
+            let m = <$M<F> as Parts<F>>::build(&g);
+            let det = m.determinant();
+            ensure!(m.is_invertible() == !ueq(det, z), "is_invertible-extreme", "{}::is_invertible() = {} but determinant() = {:?} (entries of magnitude {:?})", name, m.is_invertible(), det, scale);
+            let want_d = (0..N * N).all(|i| i / N == i % N || ueq(g[i], z));
+            ensure!(m.is_diagonal() == want_d, "is_diagonal-extreme", "{}::is_diagonal() = {} on entries of magnitude {:?}", name, m.is_diagonal(), scale);
+            let want_s = (0..N).all(|a| (0..N).all(|b| ueq(g[a * N + b], g[b * N + a])));
+            ensure!(m.is_symmetric() == want_s, "is_symmetric-extreme", "{}::is_symmetric() = {} on entries of magnitude {:?}", name, m.is_symmetric(), scale);
+            ensure!(m.is_finite() == g.iter().all(|x| x.is_finite()), "is_finite-extreme", "{}::is_finite() on entries of magnitude {:?}", name, scale);
         }};
     }
     preds!(Matrix2, 2);
